@@ -165,6 +165,10 @@ def pipeline_world(variant):
     W.add_sites_for_blocks(w, "chr1", ks[:2], "+")
     for i in range(4):
         reads.append(W.read_of("ks_%d" % i, "chr1", ks))
+    # novel unspliced transcripts (reported with --report_novel_unspliced true): polyA reads on chr1, polyT-headed '-' reads on chr2
+    for i in range(5):
+        reads.append(W.read_of("mu1_%d" % i, "chr1", [[7601, 8200]]))
+        reads.append(W.read_of("mu2_%d" % i, "chr2", [[7201, 7700]], strand="-"))
     # novel in catalog on chr1: skip slot 3; two novel isoforms sharing a novel exon (slot 5 is unannotated) on chr1
     nov_a = W.exons(1000, [0, 1, 2, 4])
     nov_b = W.exons(1000, [0, 1, 2, 3, 4, 5])
@@ -249,7 +253,7 @@ def gtf_id_errors(path, ref_transcripts=None, ref_genes=None, exon_table=None, l
 
 READ_SETS = {"all": None,
              "R0": ("k1", "ks", "k4", "na", "nd", "ig1", "h1", "f1", "f2"),
-             "R1": ("k1", "k4", "nb", "ig2", "h2", "f1"),
+             "R1": ("k1", "k4", "nb", "ig2", "h2", "f1", "mu1", "mu2"),
              "R2": ("k1", "k4", "nc", "ne", "ig1", "ig2", "f2"),
              # R3 creates ids on the second chromosome only, R4 then builds novel models on both (per-chromosome reservations differ)
              "R3": ("k1", "k4", "nd"),
